@@ -24,6 +24,8 @@ type gen struct {
 	env *Env
 	vm  *otto.Otto
 	r   *rand.Rand
+	// for the near-tie bucket: number of fraction digits resp. significant digits in front of the final 5
+	hintFrac, hintSig int
 }
 
 // ---------- observations ----------
@@ -198,6 +200,35 @@ func (g *gen) double() (float64, string) {
 // receivers that the formatters must answer before (or independently of) their digit-count test
 func (g *gen) specialReceiver() (float64, string) {
 	return Pick(g.r, []float64{math.Inf(1), math.Inf(-1), math.NaN(), math.Copysign(0, -1), 0, math.Inf(1), math.Inf(-1), -5e-324, -1e-30}), "special"
+}
+
+// short decimal literals d.dd..5 (1-4 significant digits in front of the final 5): the double nearest to
+// such a decimal is a hair below, a hair above or (for k/2^j) exactly on the tie of the rounding that
+// drops the 5; also the doubles next to it
+func (g *gen) nearTie() (float64, string) {
+	r := g.r
+	k := r.Intn(4) + 1 // significant digits kept
+	lead := r.Intn(9*int(math.Pow10(k-1))) + int(math.Pow10(k-1))
+	digits := strconv.Itoa(lead) + "5"
+	frac := r.Intn(8) // position of the point: number of fraction digits 0..7 (+ length adjustments)
+	if frac == 0 {
+		frac = 1
+	}
+	var text string
+	if frac >= len(digits) {
+		text = "0." + strings.Repeat("0", frac-len(digits)) + digits
+	} else {
+		text = digits[:len(digits)-frac] + "." + digits[len(digits)-frac:]
+	}
+	f, _ := strconv.ParseFloat(text, 64)
+	switch r.Intn(8) {
+	case 0:
+		f = math.Nextafter(f, math.Inf(1))
+	case 1:
+		f = math.Nextafter(f, 0)
+	}
+	g.hintFrac, g.hintSig = frac-1, k
+	return g.sign(f), "near-tie"
 }
 
 func intDouble(g *gen) (float64, string) {
@@ -563,7 +594,7 @@ var allWS = []uint16{9, 10, 11, 12, 13, 32, 0xA0, 0x1680, 0x2000, 0x2001, 0x2002
 // scripts' digits, lone surrogates
 func (g *gen) unitText() ([]uint16, string) {
 	r := g.r
-	base := Pick(r, []string{"7", "12", "-1.5", "+3e2", ".5", "0", "-0", "1e3", "0x1f", "Infinity", "-Infinity", "15", "2.50", "1e-7", "9007199254740993", "  42  ", "0.1", "-.5e1", "10", "NaN", ""})
+	base := Pick(r, []string{"7", "12", "-1.5", "+3e2", ".5", "0", "-0", "1e3", "0x1f", "Infinity", "-Infinity", "15", "2.50", "1e-7", "9007199254740993", "  42  ", "0.1", "-.5e1", "10", "NaN", "", "0x-1F", "0x+1", "0X-a", "-0x1"})
 	if r.Intn(3) == 0 {
 		base = Pick(r, []string{"", "", "-", "+"}) + g.unsignedDecimal()
 	}
@@ -639,9 +670,39 @@ func (g *gen) unitText() ([]uint16, string) {
 	}
 }
 
+// strings that look like prefixed integers, with signs and white space at every position
+func (g *gen) prefixText() string {
+	r := g.r
+	if r.Intn(3) == 0 {
+		return Pick(r, []string{"0x-1", "0x+1", "-0x1", "+0x1", "0x 1", "0x", "0X1G", "0x1.8", "0b1", "0o7", "1e+", "1e-", "0x-1F", "0X-a", "0x+0", "0x-0", " 0x1 ", "0x1 ", "0x\t1",
+			"0x_1", "0x1_", "0x1_0", "0x--1", "0x+-1", "0X+ff", "0b-1", "0o+7", "0x0x1", "00x1", "0x1p-1", "0x.8", "0xe+1", "0x1e+1", "0x-", "0x+", "0x-0x1", "- 0x1", "0 x1", "0x1-", "0x1+1",
+			"0B101", "0O17", "0b", "0o", "0b2", "0o8", "0x-8000000000000000", "0x+7fffffffffffffff", "-0", "0e+", "0e-0", ".e1", "e1", "+e1", "1e+-1", "1e--1", "1e+ 1", "1 e1"})
+	}
+	if r.Intn(3) == 0 {
+		// a sign (or two) right after the hex prefix, with every kind of digit string behind it
+		return Pick(r, []string{"0x", "0X"}) + Pick(r, []string{"-", "+", "-", "+", "-", "+", "-", "+", "--", "+-", "- ", " -"}) + g.radixDigits(16, Pick(r, []int{1, 1, 2, 4, 8, 15, 16, 17}))
+	}
+	pre := Pick(r, []string{"0x", "0X", "0x", "0b", "0B", "0o", "0O", "0"})
+	dig := g.radixDigits(Pick(r, []int{16, 16, 10, 8, 2}), r.Intn(6)+1)
+	ins := Pick(r, []string{"-", "+", " ", "\t", "\u00a0", "_", "-", "+", "--", ".", ""})
+	switch r.Intn(5) {
+	case 0:
+		return ins + pre + dig // before the prefix
+	case 1, 2:
+		return pre + ins + dig // between prefix and digits
+	case 3:
+		return pre[:1] + ins + pre[1:] + dig // inside the prefix
+	default:
+		k := r.Intn(len(dig) + 1)
+		return pre + dig[:k] + ins + dig[k:] // inside the digits
+	}
+}
+
 func (g *gen) numberText() (string, string) {
 	r := g.r
-	switch r.Intn(16) {
+	switch r.Intn(20) {
+	case 16, 17, 18, 19:
+		return g.ws() + g.prefixText() + g.ws(), "prefix-sign-ws"
 	case 12, 15:
 		return g.ws() + g.zeroText() + g.ws(), "signed-zero"
 	case 13:
@@ -950,6 +1011,9 @@ func (g *gen) digitsArg(lo, hi int) (string, int) {
 func (g *gen) caseFixed(f float64, bucket string) {
 	how := g.setX(f)
 	js, v := g.digitsArg(0, 20)
+	if bucket == "near-tie" && g.r.Intn(5) > 0 {
+		js, v = strconv.Itoa(g.hintFrac), g.hintFrac
+	}
 	if bucket == "decimal-tie" && g.r.Intn(2) == 0 {
 		// aim at the tie: odd/2^j has j fraction digits
 		for j := 1; j <= 13; j++ {
@@ -971,6 +1035,9 @@ func (g *gen) caseExp(f float64, bucket string) {
 	if g.r.Intn(4) == 0 {
 		js, cq = Pick(g.r, []string{"", "undefined", "undefined", "void 0", "[][0]", "(function(d){return d})()"}), "None"
 	}
+	if bucket == "near-tie" && g.r.Intn(5) > 0 {
+		js, cq = strconv.Itoa(g.hintSig-1), "(Some "+strconv.Itoa(g.hintSig-1)+")"
+	}
 	res, show := g.strRes("x.toExponential(" + js + ")")
 	g.env.Add(fmt.Sprintf("CExp %s %s %s", Cdouble(f), cq, res),
 		fmt.Sprintf("exp %s; x.toExponential(%s) -> %s", how, js, show), "toexponential/"+bucket, true)
@@ -979,6 +1046,9 @@ func (g *gen) caseExp(f float64, bucket string) {
 func (g *gen) casePrec(f float64, bucket string) {
 	how := g.setX(f)
 	js, v := g.digitsArg(1, 21)
+	if bucket == "near-tie" && g.r.Intn(5) > 0 {
+		js, v = strconv.Itoa(g.hintSig), g.hintSig
+	}
 	res, show := g.strRes("x.toPrecision(" + js + ")")
 	g.env.Add(fmt.Sprintf("CPrec %s %s %s", Cdouble(f), Cz(int64(v)), res),
 		fmt.Sprintf("prec %s; x.toPrecision(%s) -> %s", how, js, show), "toprecision/"+bucket, true)
@@ -1025,6 +1095,125 @@ func (g *gen) casePIntU(u []uint16, radixJS, radixCoq, bucket string) {
 	}
 	g.env.Add(fmt.Sprintf("CPInt %s %s %d", Cunits(u), radixCoq, bits),
 		fmt.Sprintf("pint s=%s (%s); %s -> %s", showUnits(u), how, src, show), "parseint/"+bucket, len(u) > 1)
+}
+
+// parseInt / parseFloat with a Number argument: the functions work on ToString(argument)
+func (g *gen) casePNum(f float64, bucket string) {
+	r := g.r
+	how, intlit := g.setXk(f, bucket == "int-literal")
+	fn, src, radixCoq := 0, "parseInt(x)", "None"
+	switch r.Intn(10) {
+	case 0, 1, 2:
+		fn, src = 1, "parseFloat(x)"
+	case 3:
+		src = "parseInt(x, " + Pick(r, []string{"undefined", "void 0", "0"}) + ")"
+		if strings.HasSuffix(src, " 0)") {
+			radixCoq = "(Some " + Cdouble(0) + ")"
+		}
+	case 4:
+		rad := Pick(r, []int{10, 16, 2, 36, 8})
+		src, radixCoq = fmt.Sprintf("parseInt(x, %d)", rad), "(Some "+Cdouble(float64(rad))+")"
+	case 5:
+		src = "(function(v, rdx){return parseInt(v, rdx)})(x)"
+	}
+	bits, ok, show := g.numRes(src)
+	if !ok {
+		bits = 0x7FF0000000000001
+	}
+	g.env.Add(fmt.Sprintf("CPNum %d %s %s %s %d", fn, Cdouble(f), Cbool(intlit), radixCoq, bits),
+		fmt.Sprintf("pnum %s; %s -> %s", how, src, show), "parse-of-number/"+bucket, true)
+}
+
+func (g *gen) numberArg() (float64, string) {
+	r := g.r
+	switch r.Intn(4) {
+	case 0:
+		return g.sign(nudge(r, Pick(r, []float64{5e-7, 1e-7, 0.0000005, 1e-6, 9.5e-7, 1.5e-10, 123e-20, 5e-324, 1e21, 1e22, 1.5e21, 999999999999999868928, 12345.678, 0.5, 0.9999999, 1e-5, 7e-7, 2.5e-9, 6.02e23}))), "threshold"
+	case 1:
+		return Pick(r, []float64{math.Copysign(0, -1), 0, math.NaN(), math.Inf(1), math.Inf(-1), -0.5, -1e-7, 1, -1}), "special"
+	default:
+		return g.double()
+	}
+}
+
+// parseInt / parseFloat / Number with an argument that is not a string: booleans, null, undefined,
+// objects with toString / valueOf, arrays, String objects.  The expected text of ToString(argument)
+// is known by construction; s holds the text the object methods return.
+func (g *gen) casePOther() {
+	r := g.r
+	text, bucket := g.numberText()
+	if r.Intn(3) == 0 {
+		text = g.integerText()
+	}
+	var arg string
+	expect := text
+	switch r.Intn(12) {
+	case 0:
+		arg, expect = Pick(r, []string{"true", "false", "null", "undefined", "({})", "[]", "[null]", "[undefined]", "(function(){})"}), ""
+		switch arg {
+		case "true", "false", "null", "undefined":
+			expect = arg
+		case "({})":
+			expect = "[object Object]"
+		case "(function(){})":
+			return
+		}
+	case 1, 2:
+		arg = "({toString: function(){ return s }})"
+	case 3:
+		arg = "({valueOf: function(){ return 42 }, toString: function(){ return s }})"
+	case 4:
+		arg = "({toString: null, valueOf: function(){ return s }})" // [[DefaultValue]] falls back to valueOf
+	case 5, 6:
+		arg = "[s]"
+	case 7:
+		arg, expect = "[s, '7']", text+",7"
+	case 8:
+		arg = "[[s]]"
+	case 9, 10:
+		arg = "new String(s)"
+	default:
+		arg, expect = "[null, s]", ","+text
+	}
+	u := Units(expect)
+	Must(g.vm.Set("s", text))
+	fn := r.Intn(3)
+	switch fn {
+	case 0:
+		rad, radCoq := "", "None"
+		if r.Intn(3) == 0 {
+			k := Pick(r, []int{10, 16, 8, 36})
+			rad, radCoq = strconv.Itoa(k), "(Some "+Cdouble(float64(k))+")"
+		}
+		src := "parseInt(" + arg + ")"
+		if rad != "" {
+			src = "parseInt(" + arg + ", " + rad + ")"
+		}
+		bits, ok, show := g.numRes(src)
+		if !ok {
+			bits = 0x7FF0000000000001
+		}
+		g.env.Add(fmt.Sprintf("CPInt %s %s %d", Cunits(u), radCoq, bits), fmt.Sprintf("pint-arg s=%s; %s -> %s", showUnits(Units(text)), src, show), "parse-of-object/"+bucket, true)
+	case 1:
+		src := "parseFloat(" + arg + ")"
+		bits, ok, show := g.numRes(src)
+		if !ok {
+			bits = 0x7FF0000000000001
+		}
+		g.env.Add(fmt.Sprintf("CPFloat %s %d", Cunits(u), bits), fmt.Sprintf("pfloat-arg s=%s; %s -> %s", showUnits(Units(text)), src, show), "parse-of-object/"+bucket, true)
+	default:
+		// ToNumber of an object goes through valueOf first: only the forms whose primitive is the text
+		if strings.Contains(arg, "valueOf") || arg == "true" || arg == "false" || arg == "null" || arg == "undefined" {
+			return
+		}
+		src := "Number(" + arg + ")"
+		bits, ok, show := g.numRes(src)
+		if !ok {
+			bits = 0x7FF0000000000001
+		}
+		same := g.boolRes("(function(){function eq(a,b){return (a!==a && b!==b) || (a===b && 1/a===1/b)} var o = " + arg + "; var a = Number(o); return eq(a, +o) && eq(a, o*1) && eq(a, o-0)})()")
+		g.env.Add(fmt.Sprintf("CNum %s %d %s", Cunits(u), bits, Cbool(same)), fmt.Sprintf("num-arg s=%s; %s -> %s ; +o, o*1, o-0 agree=%v", showUnits(Units(text)), src, show, same), "tonumber-of-object/"+bucket, true)
+	}
 }
 
 func (g *gen) caseLit(s, bucket string) {
@@ -1081,7 +1270,7 @@ func (g *gen) caseChain(kind int, f float64, bucket string) {
 
 func runC06(env *Env) {
 	env.Import = "Otto.C06.Corr"
-	env.Rule = "doubles: random bit patterns, subnormals, 10^k and 2^k with neighbours, exact decimal ties, the 1e21/1e-6/1e-7 thresholds, integers around 2^53/2^63/2^64, short and 17-digit decimals; each printed by String/toString(radix)/toFixed/toExponential/toPrecision over all digit counts and radixes plus out-of-range arguments. texts: StrDecimalLiteral grammar, exact/shortest/17-digit texts of doubles, exact midpoints between adjacent doubles and texts a hair off them, hex, a pool of near misses and random mutations of all of these, zero in every spelling and sign, decimal integer strings of 1..25 digits around the int64 edge, overflowing decimals with and without trailing junk, code-unit level texts (every StrWhiteSpaceChar around a numeral, units whose low byte is an ASCII numeral character, other scripts' digits, lone surrogates) bound as host string, literal, String.fromCharCode and concatenations; fed to Number()/unary plus/arithmetic/==/relational/parseFloat/parseInt (every radix, boundary and long digit strings, junk suffixes, first non-digit at the radix edge)/program source; print-then-parse chains inside one script; all on one long-lived runtime. non-trivial = distinct case other than a small integer value resp. a text of more than two characters"
+	env.Rule = "doubles: random bit patterns, subnormals, 10^k and 2^k with neighbours, exact decimal ties, the 1e21/1e-6/1e-7 thresholds, integers around 2^53/2^63/2^64, short and 17-digit decimals; each printed by String/toString(radix)/toFixed/toExponential/toPrecision over all digit counts and radixes plus out-of-range arguments. texts: StrDecimalLiteral grammar, exact/shortest/17-digit texts of doubles, exact midpoints between adjacent doubles and texts a hair off them, hex, a pool of near misses and random mutations of all of these, zero in every spelling and sign, decimal integer strings of 1..25 digits around the int64 edge, overflowing decimals with and without trailing junk, code-unit level texts (every StrWhiteSpaceChar around a numeral, units whose low byte is an ASCII numeral character, other scripts' digits, lone surrogates) bound as host string, literal, String.fromCharCode and concatenations; fed to Number()/unary plus/arithmetic/==/relational/parseFloat/parseInt (every radix, boundary and long digit strings, junk suffixes, first non-digit at the radix edge)/program source; parseInt/parseFloat/Number of non-string arguments (numbers of every magnitude, booleans, null, undefined, objects with toString/valueOf, arrays, String objects); short decimals ending in 5 (near and exact ties) through toFixed/toExponential/toPrecision at the digit count that drops the 5; prefix-looking strings with signs and white space at every position; print-then-parse chains inside one script; all on one long-lived runtime. non-trivial = distinct case other than a small integer value resp. a text of more than two characters"
 	g := &gen{env: env, vm: otto.New(), r: env.Rng}
 	r := env.Rng
 
@@ -1161,11 +1350,23 @@ func runC06(env *Env) {
 		same := g.boolRes("(function(){function eq(a,b){return (a!==a && b!==b) || (a===b && 1/a===1/b)} var a = Number(s); return eq(a, +s) && eq(a, s*1) && eq(a, s-0) && eq(isNaN(s), a!==a) && eq(s == 0, a === 0) && eq(s < 1, a < 1)})()")
 		env.Add(fmt.Sprintf("CNum %s %d %s", Cunits(u), bits, Cbool(same)), fmt.Sprintf("pinned num s=%s (fromCharCode); Number(s) -> %s ; other routes agree=%v", showUnits(u), show, same), "tonumber/pinned-units", true)
 	}
+	for _, f := range []float64{5e-7, 1e-7, math.Copysign(0, -1), 1e21, -1.5e-9, 123.9} {
+		g.casePNum(f, "pinned")
+	}
+	for _, t := range []string{"0x-1F", "0X-a", "0x+0", "0x-0", "-0x1", "0x 1", "0x1_0"} {
+		g.caseNum(t, "pinned-prefix")
+	}
+	for _, t := range []float64{1.45, 9.95, 1.005, 8.345, 0.125, 2.675, 0.045} {
+		Must(g.vm.Set("x", t))
+		fd := map[float64]int{1.45: 1, 9.95: 1, 1.005: 2, 8.345: 2, 0.125: 2, 2.675: 2, 0.045: 2}[t]
+		res, show := g.strRes(fmt.Sprintf("x.toFixed(%d)", fd))
+		env.Add(fmt.Sprintf("CFixed %s %d %s", Cdouble(t), fd, res), fmt.Sprintf("pinned x=%v; x.toFixed(%d) -> %s", t, fd, show), "tofixed/pinned-near-tie", true)
+	}
 	g.caseLit("0x8000000000000401", "pinned")
 	g.caseLit("01000000000000000000000", "pinned")
 
 	for env.Count() < env.N {
-		switch k := r.Intn(100); {
+		switch k := r.Intn(106); {
 		case k < 22:
 			f, b := g.double()
 			g.caseStr(f, b)
@@ -1184,17 +1385,26 @@ func runC06(env *Env) {
 			if r.Intn(14) == 0 {
 				f, b = g.specialReceiver()
 			}
+			if r.Intn(5) < 2 {
+				f, b = g.nearTie()
+			}
 			g.caseFixed(f, b)
 		case k < 48:
 			f, b := g.double()
 			if r.Intn(10) == 0 {
 				f, b = g.specialReceiver()
 			}
+			if r.Intn(4) == 0 {
+				f, b = g.nearTie()
+			}
 			g.caseExp(f, b)
 		case k < 56:
 			f, b := g.double()
 			if r.Intn(10) == 0 {
 				f, b = g.specialReceiver()
+			}
+			if r.Intn(4) == 0 {
+				f, b = g.nearTie()
 			}
 			g.casePrec(f, b)
 		case k < 70:
@@ -1235,7 +1445,14 @@ func runC06(env *Env) {
 			}
 			s, rj, rc, b := g.parseIntCase()
 			g.casePInt(s, rj, rc, b)
-		case k < 94:
+		case k < 96:
+			if r.Intn(3) == 0 {
+				g.casePOther()
+			} else {
+				f, b := g.numberArg()
+				g.casePNum(f, b)
+			}
+		case k < 99:
 			kind := r.Intn(5)
 			f, b := g.double()
 			if kind == 0 {
